@@ -663,7 +663,7 @@ static void record_table08(Trace& T, Rng& g, int N, int steps)
 		intent(global ? "Global extrema" : "Local extrema");
 		double mn = global ? I.Global_Minimum() : I.Local_Minimum(x1, x2), mx = global ? I.Global_Maximum() : I.Local_Maximum(x1, x2);
 		double umn = global ? U.Global_Minimum() : U.Local_Minimum(x1, x2), umx = global ? U.Global_Maximum() : U.Local_Maximum(x1, x2);
-		double slack = 64 * EPS * std::fabs(pf) * ymax;
+		double slack = 64 * EPS * std::fabs(pf) * ymax + 1e-300;	 // (tables of zeros: the unit must not vanish)
 		long below = 0, above = 0;
 		double smin = INFINITY, smax = -INFINITY;
 		int c1 = code_of(t, x1), c2 = code_of(t, x2);
@@ -703,8 +703,12 @@ static void record_table08(Trace& T, Rng& g, int N, int steps)
 		}
 		if(sg2 != 0 && (sg2 != sg || ex2 != ex))
 			sg = 2;
-		if(getenv("VERIF_DEBUG") && sg == 2)
-			fprintf(stderr, "DBGEXT N=%d x1=%.17g x2=%.17g mn=%.17g mx=%.17g umn=%.17g umx=%.17g pf=%g\n", N, x1, x2, mn, mx, umn, umx, pf);
+		if(getenv("VERIF_DEBUG") && (sg == 2 || below || above || attq > 1))
+		{
+			fprintf(stderr, "DBGEXT N=%d global=%d x1=%.17g x2=%.17g mn=%.17g mx=%.17g umn=%.17g umx=%.17g pf=%g below=%ld above=%ld attq=%ld slack=%g smin=%.17g smax=%.17g\n", N, (int)global, x1, x2, mn, mx, umn, umx, pf, below, above, (long)attq, slack, smin, smax);
+			for(int k = 0; k < N; k++)
+				fprintf(stderr, "   x=%.17g y=%.17g\n", t.x[k], t.y[k]);
+		}
 		T.emit({{"e", "Ext"}, {"global", global}, {"below", below}, {"above", above}, {"attq", attq}, {"sg", sg}, {"ex", ex}});
 	}
 }
